@@ -341,6 +341,8 @@ func runC10(c *kit.Ctx) {
 	c10R1(c, m)
 	c10R3(c, m)
 	c10TagRules(c, m)
+	c10R5(c, m)
+	c10R6(c, m)
 }
 
 // ---- R1 --------------------------------------------------------------------
